@@ -11,7 +11,7 @@ const SPEC: Spec = Spec {
         "refint (schoolbook add/sub on u64 limbs) is trusted; it is cross-checked against Python int on a transcript slice",
         "x86_64 only: the 32-bit digit build and the non-x86 adc/sbb fallbacks are not exercised",
     ],
-    bounds_quick: "S1 Dense(S5,4)^2; S2 Runs(S5,2,12)^2; S3 block-boundary lengths {4,5,6,9,10,11,14,15,16,20,21}x{+0,+1,+5,+6} with Runs(S5,2,.); S4 dense LCG digit strings, all length pairs <= 24 x 3x3 family members; S5 scalar forms: Dense(S5,4)+Runs(S5,2,8) x 12 scalars (u32/u64/u128, +-i64/i128); S7 long operands of 64..1100 digits (4 shapes each, all pairs); S6 (Dense(S5,3) + lengths 4..12 x 3 shapes)^2 through the in-place / owning forms on operands with spare buffer capacity",
+    bounds_quick: "S1 Dense(S5,4)^2; S2 Runs(S5,2,12)^2; S3 block-boundary lengths {4,5,6,9,10,11,14,15,16,20,21}x{+0,+1,+5,+6} with Runs(S5,2,.); S4 dense LCG digit strings, all length pairs <= 24 x 3x3 family members; S5 scalar forms: Dense(S5,4)+Runs(S5,2,8) x 12 scalars (u32/u64/u128, +-i64/i128); S8 Dense(S16,2)^2 (16-letter half-digit alphabet); S7 long operands of 64..1100 digits (4 shapes each, all pairs); S6 (Dense(S5,3) + lengths 4..12 x 3 shapes)^2 through the in-place / owning forms on operands with spare buffer capacity",
     bounds_thorough: "S1 Dense(S5,4)^2; S2 Runs(S5,3,17)^2 (panicking forms on the Runs(S5,3,10) sub-square); S3 as quick with Runs(S5,3,.) for the shorter operand; S4 length pairs <= 48 x 7x7 family members; S5; S6 with lengths up to 24; S7 up to 4099 digits",
     hang_secs: 120,
     probes: Some(probes),
@@ -245,6 +245,11 @@ fn body(ctx: &mut Ctx) {
                 ctx.sample(|| format!("dense LCG digits: len(a)={} len(b)={} x 3x3 family members, both orders", la, lb));
             }
         }
+    }
+    // S8: half-digit value structure: Dense(S16,2)^2 (digits around 2^31, 2^32, 2^33, 2^63, all-ones / all-zero halves)
+    {
+        let s8: Vec<Op> = alpha::dense(&alpha::SIGMA16, 2).iter().map(|d| mk(d)).collect();
+        square(ctx, "S8", &s8, 2, true);
     }
     // S7: long operands (carry / borrow chains across more than a thousand digits, lengths around multiples of the 5-digit block)
     if ctx.space("S7") {
